@@ -10,6 +10,9 @@ def mkSpan? (a b : Sexp) : Option Span := do pure âŸ¨â† a.asNat?, â† b.asNat?â
 def pathOf? : Sexp â†’ Option Path
   | .list [.atom "path", g, segs, plain, .str toks, lo, hi] => do
       pure { global := â† g.asBool?, segs := â† strs? segs, plain := â† plain.asBool?, toks, span := â† mkSpan? lo hi }
+  | .list [.atom "path", g, segs, plain, .str toks, lo, hi, flo, fhi] => do
+      pure { global := â† g.asBool?, segs := â† strs? segs, plain := â† plain.asBool?, toks, span := â† mkSpan? lo hi,
+             first := â† mkSpan? flo fhi }
   | _ => none
 
 def litVOf? : Sexp â†’ Option LitV
